@@ -39,7 +39,7 @@ func modelEvents(cs *connState) []string {
 	var out []string
 	for _, e := range cs.Events {
 		switch e.K {
-		case "read", "write", "quiesce", "close", "idle", "wedge", "ctx", "retain-corrupt", "auth-custom":
+		case "read", "write", "quiesce", "close", "idle", "wedge", "read-wait", "ctx", "retain-corrupt", "auth-custom":
 			continue
 		}
 		out = append(out, e.K+" "+e.S)
